@@ -2,8 +2,10 @@
 //! Usage: scverif <module> <command> [key=value ...]
 mod common;
 mod alloc;
+mod c01;
 mod c02;
 mod c06;
+mod net;
 
 fn main() {
     let args: Vec<String> = std::env::args().collect();
@@ -13,6 +15,7 @@ fn main() {
     }
     let kv = common::Args::parse(&args[3..]);
     let rc = match (args[1].as_str(), args[2].as_str()) {
+        ("c01", "drive") => c01::drive(&kv),
         ("c02", "drive") => c02::drive(&kv),
         ("c06", "drive") => c06::drive(&kv),
         (m, c) => {
